@@ -15,7 +15,7 @@ def main():
     if len(sys.argv) >= 2 and sys.argv[1] == 'replay':
         from checks.common import native_replay
         d = json.load(open(sys.argv[2]))
-        out = native_replay([('r', d['script'], d['call'])], scale_depth=d.get('scale_depth'))
+        out = native_replay([('r', d['script'], d['call'])], scale_depth=d.get('scale_depth'), pkgdir=d.get('pkgdir', '.'))
         v = out.get('r', ('MISSING', ''))
         print('replay %s: %s %s' % (d['call'][:200], v[0], v[1]))
         if v[0] in ('FAIL', 'PANIC'):
